@@ -15,6 +15,16 @@ iterations as are possible without waiting (`loopC` over the single transition `
 inner call that is ready at once is observed in the same poll, a zero back-off does not yield
 (a tokio `sleep` whose deadline has been reached is ready at its first poll).
 
+Time. The op clock (`now`, `adv`, inner latencies, every instant in the event log) is in whole
+milliseconds; the configured back-offs are `Duration`s with sub-millisecond resolution and are
+modelled in **microseconds** (`Cfg.backoff`). tokio's timer has millisecond granularity and rounds a
+deadline *up*: a `sleep(d)` armed at instant `t` is ready at the first millisecond boundary
+`≥ t + d`. All instants here are whole milliseconds, so that boundary is `t + ⌈d/1000⌉` ms
+(`ceilMs`; probed on the real runtime through the retry layer: 500 µs → +1 ms, 1000 µs → +1 ms,
+1001 µs → +2 ms, 1 µs → +1 ms, 0 → same poll, `exp:900` → +1, +2, +4 ms). `Duration::MAX` (header
+value `max`) is modelled as `durMaxUs`; tokio replaces a deadline that `Instant` cannot represent
+by "30 years from now", so model and code agree on every history shorter than that.
+
 The retry budget is shared by all call futures of the layer. It is modelled *sequentially*: each
 `try_withdraw` and each `deposit` is one atomic step (`Budget.withdraw`, `Budget.deposit` on the
 budget state); the interleaving of the atomic operations inside them is the subject of C08.
@@ -62,7 +72,7 @@ structure Cfg where
   max     : Nat := 3                       -- `max_attempts` (fixed), default of a request without `ma=`
   dyn     : Bool := false                  -- `max_attempts_fn`: the request carries its own value
   pred    : Nat → Bool := fun _ => true    -- retry predicate over error kinds (none configured = all)
-  backoff : Nat → Nat := fun _ => 0        -- `IntervalFunction::next_interval`, whole ms
+  backoff : Nat → Nat := fun _ => 0        -- `IntervalFunction::next_interval`, in µs
   budget  : Option Budget := none
   b0      : BState := ⟨0, 0⟩               -- initial budget state
 
@@ -73,6 +83,13 @@ inductive Phase
   | done
   | dropped
 deriving DecidableEq, Repr
+
+/-- tokio's timer rounds a delay of `us` microseconds, armed at a whole-millisecond instant, **up** to
+whole milliseconds: `⌈us/1000⌉` -/
+def ceilMs (us : Nat) : Nat := (us + 999) / 1000
+
+/-- `Duration::MAX` (`u64::MAX` s + 999 999 999 ns), rounded up to whole µs -/
+def durMaxUs : Nat := 2 ^ 64 * 1000000
 
 /-- ghost record of one attempt -/
 structure Att where
@@ -91,7 +108,7 @@ structure Caller where
   phase   : Phase := .fresh
   attempt : Nat := 0
   atts    : List Att := []      -- ghost, newest first
-  sleeps  : List Nat := []      -- ghost, newest first: the delays handed to `sleep`
+  sleeps  : List Nat := []      -- ghost, newest first: the delays handed to `sleep`, in µs
   grants  : List Bool := []     -- ghost, newest first: answers of `try_withdraw`
   result  : Option Res := none
 deriving Repr
@@ -167,7 +184,7 @@ def observe (cfg : Cfg) (now serial : Nat) (b : BState) (c : Nat) (cl : Caller) 
         b := v.b, serial := serial, deps := v.deps,
         evs := [.innerDone c k o, .result c (resOf k o)] }
   | .retry =>
-      { cl := { cl with phase := .sleeping (now + cfg.backoff cl.attempt), atts := seenNow now cl.atts,
+      { cl := { cl with phase := .sleeping (now + ceilMs (cfg.backoff cl.attempt)), atts := seenNow now cl.atts,
                         grants := v.grants ++ cl.grants, sleeps := cfg.backoff cl.attempt :: cl.sleeps },
         b := v.b, serial := serial, deps := v.deps,
         evs := [.innerDone c k o] }
@@ -287,15 +304,24 @@ def run (cfg : Cfg) (ops : List Op) : State := ops.foldl (stepS cfg) (init cfg)
 def natsOf (s : String) (sep : String) : List Nat :=
   ((s.splitOn sep).filter (· ≠ "")).map fun x => x.toNat?.getD 0
 
-/-- `bo=fixed:10 | exp:5 | fn:1,2,3`; absent: the builder's default, exponential from 100 ms -/
+/-- one configured back-off value in µs: a number of ms (of µs with `unit=us`), `max` = `Duration::MAX` -/
+def durOf (us : Bool) (s : String) : Nat :=
+  if s = "max" then durMaxUs else (s.toNat?.getD 0) * (if us then 1 else 1000)
+
+/-- `ExponentialBackoff` (multiplier 2, no cap): `initial · 2^k`, saturating at `Duration::MAX` -/
+def expOf (d k : Nat) : Nat := min (d * 2 ^ k) durMaxUs
+
+/-- `bo=fixed:10 | exp:5 | fn:1,2,3 [unit=us]`, values in ms (µs with `unit=us`) or `max`; absent: the
+builder's default, exponential from 100 ms. The result is in µs. -/
 def parseBackoff (kv : Kv) : Nat → Nat :=
+  let us := kv.get "unit" == some "us"
   match kv.get "bo" with
-  | none => fun k => 100 * 2 ^ k
+  | none => fun k => 100000 * 2 ^ k
   | some s =>
       match s.splitOn ":" with
-      | ["fixed", d] => let d := d.toNat?.getD 0; fun _ => d
-      | ["exp", d] => let d := d.toNat?.getD 0; fun k => d * 2 ^ k
-      | [_, t] => let t := natsOf t ","; fun k => t.getD k 0
+      | ["fixed", d] => let d := durOf us d; fun _ => d
+      | ["exp", d] => let d := durOf us d; fun k => expOf d k
+      | [_, t] => let t := ((t.splitOn ",").filter (· ≠ "")).map (durOf us); fun k => t.getD k 0
       | _ => fun _ => 0
 
 /-- `retry=<mask>`: kind k is retried iff bit k is set; absent: every error is retried -/
